@@ -861,7 +861,16 @@ func runC04Child(t gen.Tier, r *gen.Rng, rep *Reporter) {
 		// inside the bitmap, inside an element), a Pack, documents with a member "1" (the bitmap
 		// field) shorter / longer than the bitmap - in every order
 		if ok {
-			short := [][]byte{nil, wire[:2], wire[:4], wire[:5], wire[:len(wire)/2], wire[:len(wire)-1], wire, advBytes(r)}
+			cutAt := func(n int) []byte {
+				if n > len(wire) {
+					n = len(wire)
+				}
+				if n < 0 {
+					n = 0
+				}
+				return wire[:n]
+			}
+			short := [][]byte{nil, cutAt(2), cutAt(4), cutAt(5), cutAt(len(wire) / 2), cutAt(len(wire) - 1), wire, advBytes(r)}
 			bmDocs := [][]byte{[]byte(`{"1":""}`), []byte(`{"1":"00"}`), []byte(`{"1":"80"}`), []byte(`{"1":"C000000000000000"}`),
 				[]byte(`{"0":"0100","1":"8000000000000000"}`), []byte(`{"1":"FFFFFFFFFFFFFFFFFFFFFFFFFFFFFFFFFFFFFFFFFFFFFFFF"}`)}
 			for k := 0; k < 10; k++ {
